@@ -41,7 +41,7 @@ def run_fjsp(p):
             from rl4co.envs.scheduling.fjsp.env import FJSPEnv as Cls
         B, NM = p["B"], p["NM"]
         pad_to = p["NJ"] * p["NOPS"]
-        gen = types.SimpleNamespace(num_mas=NM, num_jobs=p["NJ"], max_ops_per_job=p["NOPS"], n_ops_max=pad_to)
+        gen = types.SimpleNamespace(num_mas=p.get("gen_mas") or NM, num_jobs=p["NJ"], max_ops_per_job=p["NOPS"], n_ops_max=pad_to)
         env = Cls(generator=gen, mask_no_ops=p["mask_no_ops"])
         td = TensorDict({"start_op_per_job": torch.tensor([p["starts"]] * B), "end_op_per_job": torch.tensor([p["ends"]] * B),
                          "proc_times": torch.tensor(p["proc"], dtype=torch.float32), "pad_mask": torch.tensor(p["pad"], dtype=torch.bool)}, batch_size=[B])
@@ -95,16 +95,19 @@ def run_ffsp(p):
         from rl4co.envs.scheduling.ffsp.env import FFSPEnv
 
         NJ, NS, NMA = p["NJ"], p["NS"], p["NMA"]
+        B = p.get("B", 1)
+        rts = p.get("run_times") or [p["run_time"]]
+        acts = [([a] if not isinstance(a, list) else a) for a in p["actions"]]
         gen = types.SimpleNamespace(num_stage=NS, num_machine=NMA, num_job=NJ, num_machine_total=NS * NMA, flatten_stages=p["flatten"])
         env = FFSPEnv(generator=gen)
-        rt = torch.tensor([p["run_time"]], dtype=torch.int64)
-        td = env.reset(TensorDict({"run_time": rt}, batch_size=[1]))
+        rt = torch.tensor(rts, dtype=torch.int64)
+        td = env.reset(TensorDict({"run_time": rt}, batch_size=[B]))
         out = {"violations": [], "admitted": True}
-        for t, a in enumerate(p["actions"]):
-            if not bool(td["action_mask"][0, a]):
+        for t, a in enumerate(acts):
+            if not all(bool(td["action_mask"][b, a[b]]) for b in range(B)):
                 out["admitted"] = False
                 return out
-            td.set("action", torch.tensor([a]))
+            td.set("action", torch.tensor(a))
             try:
                 td = env.step(td)["next"]
             except Exception as e:  # noqa: BLE001
@@ -112,33 +115,35 @@ def run_ffsp(p):
                 return out
         out["done"] = bool(td["done"].all())
         if not out["done"]:
-            if not bool(td["action_mask"].any()):
+            if not bool(td["action_mask"].any(-1).all()):
                 out["violations"].append("unfinished instance is offered no action")
             return out
-        sch = td["schedule"][0].tolist()
-        start, end = {}, {}
-        for j in range(NJ):
-            for s in range(NS):
-                used = [m for m in range(s * NMA, (s + 1) * NMA) if sch[m][j] >= 0]
-                if len(used) != 1:
-                    out["violations"].append(f"job {j} processed on {len(used)} machines in stage {s}")
-                    continue
-                m = used[0]
-                start[j, s] = (sch[m][j], m)
-                end[j, s] = sch[m][j] + p["run_time"][j][m]
-            for s in range(1, NS):
-                if (j, s) in start and (j, s - 1) in end and start[j, s][0] < end[j, s - 1]:
-                    out["violations"].append(f"job {j} starts stage {s} before finishing stage {s - 1}")
-        ks = sorted(start)
-        for i, k1 in enumerate(ks):
-            for k2 in ks[i + 1:]:
-                if start[k1][1] == start[k2][1] and not (end[k1] <= start[k2][0] or end[k2] <= start[k1][0]):
-                    out["violations"].append(f"machine {start[k1][1]} runs jobs {k1[0]} and {k2[0]} at the same time")
-        if end:
-            mk = max(end.values())
-            r = float(td["reward"].reshape(-1)[0])
-            if abs(r + mk) > 1e-4:
-                out["violations"].append(f"reward {r} != -makespan {-mk}")
+        for b in range(B):
+            tag = f"row {b}: " if B > 1 else ""
+            sch = td["schedule"][b].tolist()
+            start, end = {}, {}
+            for j in range(NJ):
+                for s in range(NS):
+                    used = [m for m in range(s * NMA, (s + 1) * NMA) if sch[m][j] >= 0]
+                    if len(used) != 1:
+                        out["violations"].append(f"{tag}job {j} processed on {len(used)} machines in stage {s}")
+                        continue
+                    m = used[0]
+                    start[j, s] = (sch[m][j], m)
+                    end[j, s] = sch[m][j] + rts[b][j][m]
+                for s in range(1, NS):
+                    if (j, s) in start and (j, s - 1) in end and start[j, s][0] < end[j, s - 1]:
+                        out["violations"].append(f"{tag}job {j} starts stage {s} before finishing stage {s - 1}")
+            ks = sorted(start)
+            for i, k1 in enumerate(ks):
+                for k2 in ks[i + 1:]:
+                    if start[k1][1] == start[k2][1] and not (end[k1] <= start[k2][0] or end[k2] <= start[k1][0]):
+                        out["violations"].append(f"{tag}machine {start[k1][1]} runs jobs {k1[0]} and {k2[0]} at the same time")
+            if end:
+                mk = max(end.values())
+                r = float(td["reward"].reshape(-1)[b])
+                if abs(r + mk) > 1e-4:
+                    out["violations"].append(f"{tag}reward {r} != -makespan {-mk}")
         return out
     except Exception as e:  # noqa: BLE001
         import traceback
